@@ -412,7 +412,20 @@ func TestC01Network(t *testing.T) {
 			return
 		}
 		entry := core.OneOf(c, "entry", "ping-header", "hop-record", "peering-request")
-		c.Note("%s via %s: %s predicate=%v", what, entry, id, pred)
+		// A peering request is also presented by routers V already knows (every
+		// reconnect): V may hold the genuine record of this address before the
+		// identity under test arrives. (Pings and hop records of known routers do
+		// not carry an identity that is looked at: first contact only.)
+		knownFirst := false
+		if entry == "peering-request" && id.ip == valid.ip && c.Bool("known-first") {
+			pa := valid.public()
+			if err := V.St.AddRouter(&pa); err != nil {
+				c.Fatalf("add genuine router: %v", err)
+			}
+			knownFirst = true
+			c.Class("peering-request-from-known-router")
+		}
+		c.Note("%s via %s: %s predicate=%v known-first=%v", what, entry, id, pred, knownFirst)
 		alerts := mgr.NewAlertMgr(V.Peer.Manager())
 		accepted := false
 		b := frame.NewFrameBuilder()
@@ -541,11 +554,16 @@ func TestC01Network(t *testing.T) {
 			if accepted {
 				c.Fatalf("%s (%s) was accepted at the %s entry point", what, id, entry)
 			}
-			if s := V.St.GetSession(id.ip); s != nil {
+			if s := V.St.GetSession(id.ip); s != nil && !knownFirst {
 				c.Fatalf("a session for %s exists after %s (%s) was presented at the %s entry point", id.ip, what, id, entry)
 			}
-			if sr, err := V.Store.GetRouter(id.ip); err == nil && sr != nil {
+			if sr, err := V.Store.GetRouter(id.ip); err == nil && sr != nil && !knownFirst {
 				c.Fatalf("a stored record for %s exists after %s was presented at the %s entry point", id.ip, what, entry)
+			}
+			if knownFirst {
+				if s := V.St.GetSession(id.ip); s == nil || !bytes.Equal(s.Address().PublicKey, valid.pub) || string(s.Address().Hash) != valid.hash || s.Address().Easing != valid.easing {
+					c.Fatalf("the genuine record of %s was replaced after %s was presented at the %s entry point", id.ip, what, entry)
+				}
 			}
 		}
 		if mustAccept && !accepted {
